@@ -40,8 +40,8 @@ tests pass with it and that its demonstration fails with it and passes without i
 quick; git -C /repo checkout -- .); last result: **%s** (seeded/RESULTS.txt).
 %d of the %d changes were MISSED by the version of the check that existed when the change arrived; every
 miss led to a general strengthening (a new clause or a wider menu, described in the last column and in 8.5),
-never to a special case for that patch, and no check was loosened. Two changes (C14-d: `Translate(src[:0], src)` breaks because dst is zero-filled before src is read; C13-h:
-`DNATo2Bit(seq[:0], seq)` breaks because the output byte is appended before the group is read) are deliberately NOT
+never to a special case for that patch, and no check was loosened. Three changes (C14-d: `Translate(src[:0], src)` breaks because dst is zero-filled before src is read; C13-h:
+`DNATo2Bit(seq[:0], seq)` breaks because the output byte is appended before the group is read; C13-t is the same case once more, with dst's spare capacity being src) are deliberately NOT
 detected: overlapping dst and src is outside the statements, other append-style functions of the package do not support it on the pinned tree
 either, and demanding it would raise an alarm on a correct implementation that pre-grows dst.
 
